@@ -30,6 +30,7 @@ type Stats struct {
 	TrivialAsserts, NontrivialAsserts      int
 	Unknown                                int
 	OneShot                                int
+	XUnknown                               int
 	Hist                                   [5]int
 	HistT                                  [2]time.Duration
 	Merged                                 int
@@ -94,6 +95,7 @@ type Worker struct {
 	shareTick int
 	oneShotVals map[int]string
 	hardStreak  int
+	nXUnsat     int
 	hardTick    int
 }
 
@@ -355,8 +357,11 @@ func (w *Worker) handleCrash(s *State, why string) {
 		f := s.top()
 		s.frames = s.frames[:len(s.frames)-1]
 		if f.catch {
-			if len(s.frames) > 0 && f.callerReg >= 0 {
-				s.top().env[f.callerReg] = w.tc.True
+			if len(s.frames) > 0 {
+				if f.callerReg >= 0 {
+					s.top().env[f.callerReg] = w.tc.True
+				}
+				s.top().ip++ // continue after the Crashed(...) call
 			}
 			s.covers["crash:"+why] = true
 			s.why = why + " at " + at
@@ -614,6 +619,10 @@ func (w *Worker) exec(s *State, f *Frame, in ssa.Instruction) bool {
 		p := w.eval(s, f, x.Addr).(Ptr)
 		s.store(p, w.eval(s, f, x.Val))
 	case *ssa.FieldAddr:
+		if op, isOp := w.eval(s, f, x.X).(OpaqueV); isOp {
+			w.set(f, x, op) // a field of an opaque external object is opaque
+			return true
+		}
 		p := w.eval(s, f, x.X).(Ptr)
 		if p.O == nil {
 			panic(crash{"nil pointer dereference (field " + fieldName(x.X.Type(), x.Field) + ")"})
